@@ -361,3 +361,5 @@ SUBS = [
     Sub("index_1d", lambda tier: cases_1d(tier), check_1d, quick=1200, thorough=8000),
     Sub("index_nd", lambda tier: cases_nd(tier), check_nd, quick=900, thorough=6000),
 ]
+
+RULE += ' Also: slice bounds beyond both ends; N-D selections on a fixed-width axis with a grid offset.'
